@@ -30,16 +30,16 @@ func (c Config) String() string { return c.GOOS + "/" + c.GOARCH }
 
 // Prog is the loaded, type-checked program in SSA form.
 type Prog struct {
-	Dir     string
-	Cfg     Config
-	Fset    *token.FileSet
-	Pkgs    map[string]*packages.Package // by import path
-	Initial []*packages.Package
-	SSA     *ssa.Program
-	SSAPkgs map[string]*ssa.Package
-	Files   []string // Go files of the module that were parsed
+	Dir      string
+	Cfg      Config
+	Fset     *token.FileSet
+	Pkgs     map[string]*packages.Package // by import path
+	Initial  []*packages.Package
+	SSA      *ssa.Program
+	SSAPkgs  map[string]*ssa.Package
+	Files    []string // Go files of the module that were parsed
 	TypeErrs map[string][]string
-	funcs   map[*ssa.Function]bool
+	funcs    map[*ssa.Function]bool
 }
 
 // Load loads dir/... (the module under verification) for one configuration.
@@ -268,19 +268,19 @@ type Obligation struct {
 
 // Ctx collects the obligations of one property run.
 type Ctx struct {
-	Property string
-	Tier     string
-	P        *Prog
-	Obls     []*Obligation
-	RuleDocs map[string]string
-	mins     map[string]int
-	Assume   []string
-	Trusted  []string
+	Property  string
+	Tier      string
+	P         *Prog
+	Obls      []*Obligation
+	RuleDocs  map[string]string
+	mins      map[string]int
+	Assume    []string
+	Trusted   []string
 	FuncsSeen map[string]bool
-	CfgName  string
-	NFiles   int
-	NPkgs    int
-	keys     map[string]bool
+	CfgName   string
+	NFiles    int
+	NPkgs     int
+	keys      map[string]bool
 }
 
 func NewCtx(prop, tier string, p *Prog) *Ctx {
@@ -446,19 +446,19 @@ type Evidence struct {
 
 // Result of running one property (possibly over several configurations).
 type Result struct {
-	Property  string
-	Tier      string
-	Obls      []*Obligation
-	RuleDocs  map[string]string
-	Assume    []string
-	Trusted   []string
-	Funcs     []string
-	Configs   []string
-	Files     int
-	Packages  int
-	Start     time.Time
-	Controls  []string
-	Quiet     bool
+	Property string
+	Tier     string
+	Obls     []*Obligation
+	RuleDocs map[string]string
+	Assume   []string
+	Trusted  []string
+	Funcs    []string
+	Configs  []string
+	Files    int
+	Packages int
+	Start    time.Time
+	Controls []string
+	Quiet    bool
 }
 
 func (r *Result) Merge(c *Ctx) {
@@ -586,18 +586,18 @@ func (r *Result) Report(verifDir string, ff *FindingsFile, seed int) int {
 		"explanation": "Static analysis of /repo's current source (go/packages + go/types + go/ssa, nothing executed). Rules applied: " + strings.Join(rules, " | "),
 		"obligations": total, "discharged": counts[Discharged], "violated": counts[Violated], "undecided": counts[Undecided], "assumed": counts[Assumed], "info": counts[Info],
 		"known_findings_matched": len(printedKnown),
-		"evaluations":           total,
-		"distinct_nontrivial":   len(nontrivial),
-		"rule":                  "one obligation per rule instance (rule x construct); an obligation is non-trivial when its discharge used a dominance, path-search, provenance, lockset or bounds fact rather than a syntactic match; counted by distinct obligation key",
-		"samples":               samples,
-		"functions_analysed":    r.Funcs,
-		"build_configs":         r.Configs,
-		"packages":              r.Packages,
-		"files_parsed":          r.Files,
-		"trusted_base":          r.Trusted,
-		"engine_controls_fired": r.Controls,
-		"checker_cmd":           fmt.Sprintf("bin/gicheck -property %s -tier %s", r.Property, r.Tier),
-		"exhaustive":            false,
+		"evaluations":            total,
+		"distinct_nontrivial":    len(nontrivial),
+		"rule":                   "one obligation per rule instance (rule x construct); an obligation is non-trivial when its discharge used a dominance, path-search, provenance, lockset or bounds fact rather than a syntactic match; counted by distinct obligation key",
+		"samples":                samples,
+		"functions_analysed":     r.Funcs,
+		"build_configs":          r.Configs,
+		"packages":               r.Packages,
+		"files_parsed":           r.Files,
+		"trusted_base":           r.Trusted,
+		"engine_controls_fired":  r.Controls,
+		"checker_cmd":            fmt.Sprintf("bin/gicheck -property %s -tier %s", r.Property, r.Tier),
+		"exhaustive":             false,
 	}
 	b, _ := json.MarshalIndent(ev, "", " ")
 	if err := os.WriteFile(filepath.Join(evDir, r.Property+".json"), b, 0o666); err != nil {
